@@ -80,6 +80,20 @@ def run(tier):
     wss = [(ws, sh) for sh in vlib.shard(pats, max(1, len(pats) // 8))]
     wss += [(vlib.REPO, [p]) for p in std]
     wss.append((vlib.REPO, ["./linter", "./checkers/internal/lintutil", "./checkers/internal/astwalk"]))
+    # a package made for shared-state bait: many files in which several checkers ask for the same facts at once
+    # (sizes of the same struct types, the same regexps, the same callees) - memo tables and lazily built caches in the
+    # shared context show up here whatever the seed
+    bd = os.path.join(ws, "bait")
+    os.makedirs(bd)
+    for k in range(24):
+        src = ["package bait\n\nimport (\n\t\"regexp\"\n\t\"sort\"\n\t\"strings\"\n)\n"]
+        for j in range(4):
+            t = "T%d_%d" % (k, j)
+            src.append("type %s struct {\n\ta [%d]int64\n\tb string\n\tc [3]struct{ x, y float64 }\n}\n" % (t, 12 + j))
+            src.append("func (v %s) M%d(w %s, ws []%s, arr [8]%s) int {\n\tn := 0\n\tfor _, x := range ws {\n\t\tn += len(x.b)\n\t}\n\tfor _, y := range arr {\n\t\tn += len(y.b)\n\t}\n"
+                       "\tre := regexp.MustCompile(`^[a-a]x{1,1}(?:y)%d$`)\n\tif re.MatchString(w.b) && strings.Index(w.b, \"q\") >= 0 {\n\t\tn++\n\t}\n"
+                       "\tsort.Slice(ws, func(i, j int) bool { return ws[i].b < ws[j].b })\n\tif int32(n) < int32(len(v.b)) {\n\t\tn--\n\t}\n\treturn n + len(v.c) + len(w.c)\n}\n" % (t, j, t, t, t, k))
+        open(os.path.join(bd, "f%02d.go" % k), "w").write("\n".join(src))
     confs = []
     seeds = [vlib.seed() * 100 + i for i in range(2 if tier == "quick" else 8)]
     for conc in (2, 3, 16, 64):
@@ -95,6 +109,14 @@ def run(tier):
             jobs.append((wi, cwd, pk, b, (1, 16, 0), True))
             for c in cs:
                 jobs.append((wi, cwd, pk, b, c, False))
+
+    bwi = len(wss)
+    wss.append((ws, ["./bait"]))
+    for b in ("go-critic", "gocritic"):
+        jobs.append((bwi, ws, ["./bait"], b, (1, 16, 0), True))
+        for conc, gmp in ((64, 16), (16, 16), (64, 2), (3, 16)):
+            for sd in seeds[:2 if tier == "quick" else 6]:
+                jobs.append((bwi, ws, ["./bait"], b, (conc, gmp, sd), False))
 
     def one(job):
         wi, cwd, pk, b, (conc, gmp, sd), is_ref = job
